@@ -352,6 +352,162 @@ impl OrdElem for Keyed {
     }
 }
 
+/// An element with drop glue: `std::mem::needs_drop::<Boxed>()` is true.
+#[derive(Clone, Debug, PartialEq, Eq, PartialOrd, Ord)]
+pub struct Boxed(pub Box<i64>);
+macro_rules! boxed_op {
+    ($tr:ident, $f:ident, $w:ident) => {
+        impl std::ops::$tr for Boxed {
+            type Output = Boxed;
+            fn $f(self, o: Boxed) -> Boxed {
+                Boxed(Box::new((*self.0).$w(*o.0)))
+            }
+        }
+    };
+}
+boxed_op!(Add, add, wrapping_add);
+boxed_op!(Sub, sub, wrapping_sub);
+boxed_op!(Mul, mul, wrapping_mul);
+impl std::ops::Div for Boxed {
+    type Output = Boxed;
+    fn div(self, o: Boxed) -> Boxed {
+        Boxed(Box::new(if *o.0 == 0 { 0 } else { (*self.0).wrapping_div(*o.0) }))
+    }
+}
+impl std::ops::Rem for Boxed {
+    type Output = Boxed;
+    fn rem(self, o: Boxed) -> Boxed {
+        Boxed(Box::new(if *o.0 == 0 { 0 } else { (*self.0).wrapping_rem(*o.0) }))
+    }
+}
+impl FromPrimitive for Boxed {
+    fn from_i64(n: i64) -> Option<Boxed> {
+        Some(Boxed(Box::new(n)))
+    }
+    fn from_u64(n: u64) -> Option<Boxed> {
+        i64::try_from(n).ok().map(|v| Boxed(Box::new(v)))
+    }
+}
+impl ToPrimitive for Boxed {
+    fn to_i64(&self) -> Option<i64> {
+        Some(*self.0)
+    }
+    fn to_u64(&self) -> Option<u64> {
+        u64::try_from(*self.0).ok()
+    }
+}
+impl Elem for Boxed {
+    const TY: ElemTy = ElemTy::Boxed;
+    fn from_raw(r: i64) -> Self {
+        Boxed(Box::new(r))
+    }
+    fn to_raw(&self) -> i64 {
+        *self.0
+    }
+}
+impl OrdElem for Boxed {
+    fn num(&self) -> NumVal {
+        NumVal::I(*self.0 as i128)
+    }
+}
+
+/// A large element (96 bytes) without drop glue. The padding is a function of
+/// the value, so a torn or half-copied element is recognisable.
+#[derive(Clone, Copy, Debug)]
+pub struct Fat {
+    pub v: i64,
+    pub pad: [u64; 11],
+}
+impl Fat {
+    pub fn new(v: i64) -> Fat {
+        let mut pad = [0u64; 11];
+        for (k, p) in pad.iter_mut().enumerate() {
+            *p = (v as u64) ^ (0x9E37_79B9_7F4A_7C15u64.wrapping_mul(k as u64 + 1));
+        }
+        Fat { v, pad }
+    }
+    fn intact(&self) -> bool {
+        let f = Fat::new(self.v);
+        f.pad == self.pad
+    }
+}
+impl PartialEq for Fat {
+    fn eq(&self, o: &Fat) -> bool {
+        self.v == o.v
+    }
+}
+impl Eq for Fat {}
+impl PartialOrd for Fat {
+    fn partial_cmp(&self, o: &Fat) -> Option<std::cmp::Ordering> {
+        Some(self.cmp(o))
+    }
+}
+impl Ord for Fat {
+    fn cmp(&self, o: &Fat) -> std::cmp::Ordering {
+        self.v.cmp(&o.v)
+    }
+}
+macro_rules! fat_op {
+    ($tr:ident, $f:ident, $w:ident) => {
+        impl std::ops::$tr for Fat {
+            type Output = Fat;
+            fn $f(self, o: Fat) -> Fat {
+                Fat::new(self.v.$w(o.v))
+            }
+        }
+    };
+}
+fat_op!(Add, add, wrapping_add);
+fat_op!(Sub, sub, wrapping_sub);
+fat_op!(Mul, mul, wrapping_mul);
+impl std::ops::Div for Fat {
+    type Output = Fat;
+    fn div(self, o: Fat) -> Fat {
+        Fat::new(if o.v == 0 { 0 } else { self.v.wrapping_div(o.v) })
+    }
+}
+impl std::ops::Rem for Fat {
+    type Output = Fat;
+    fn rem(self, o: Fat) -> Fat {
+        Fat::new(if o.v == 0 { 0 } else { self.v.wrapping_rem(o.v) })
+    }
+}
+impl FromPrimitive for Fat {
+    fn from_i64(n: i64) -> Option<Fat> {
+        Some(Fat::new(n))
+    }
+    fn from_u64(n: u64) -> Option<Fat> {
+        i64::try_from(n).ok().map(Fat::new)
+    }
+}
+impl ToPrimitive for Fat {
+    fn to_i64(&self) -> Option<i64> {
+        Some(self.v)
+    }
+    fn to_u64(&self) -> Option<u64> {
+        u64::try_from(self.v).ok()
+    }
+}
+impl Elem for Fat {
+    const TY: ElemTy = ElemTy::Fat;
+    fn from_raw(r: i64) -> Self {
+        Fat::new(r)
+    }
+    fn to_raw(&self) -> i64 {
+        // a torn element shows up as a value no generator produces
+        if self.intact() {
+            self.v
+        } else {
+            i64::MIN + 0x7A7
+        }
+    }
+}
+impl OrdElem for Fat {
+    fn num(&self) -> NumVal {
+        NumVal::I(self.v as i128)
+    }
+}
+
 /// numeric value of a raw encoding, for reference computations
 pub fn num_of_raw(ty: ElemTy, raw: i64) -> NumVal {
     match ty {
